@@ -6,6 +6,9 @@ from harness import common as H
 from vlib import co
 from vlib import fakes as F
 
+# private-attribute groups (vlib/layout.py) the obligations of this module depend on
+LAYOUT = ['pp']
+
 EXPLANATION = (
     'C19: in-process instances of the real GetObjectSubmitter, two GetObjectWorkers and the TransferMonitor (the '
     'cross-process protocol replayed in one process) over list-backed queues and an in-memory file system.  The run '
